@@ -95,4 +95,17 @@ Definition years_driver (L S : Z) (years : list Z) (Wy : list bool -> list V) : 
          let vals := NP.select (Wy m_win) m_win_adj in
          if Z.eqb (NP.zcount m_adj) (Z.of_nat (length vals)) then Some (put_mask b m_adj vals) else None
      end) (years_use L S years) (Some (repeat None (length years))).
+(** ISIMIP.apply_location in month mode (running_window_mode = False): for each month 1..12 the step
+    pipeline sees the three series restricted to that month and its result is written back through the
+    Boolean mask of cm_future's months *)
+Definition months_driver {T : Type} (mo mh mf : list Z) (obs hist fut : list T)
+           (W : list T -> list T -> list T -> list V) : option (list (option V)) :=
+  fold_left (fun buf m =>
+     match buf with
+     | None => None
+     | Some b =>
+         let mask := map (Z.eqb m) mf in
+         let vals := W (NP.select obs (map (Z.eqb m) mo)) (NP.select hist (map (Z.eqb m) mh)) (NP.select fut mask) in
+         if Z.eqb (NP.zcount mask) (Z.of_nat (length vals)) then Some (put_mask b mask vals) else None
+     end) (NP.arange1 1 13) (Some (repeat None (length mf))).
 End Driver.
